@@ -158,6 +158,8 @@ def extra_props(ctx, names):
         if os.path.exists(os.path.join(LEAN, "TomlVerif", "Props", n + ".lean")):
             lake_build(ctx, [f"TomlVerif.Props.{n}"], {f"TomlVerif.Props.{n}": "property theorems"})
             audit(ctx, f"TomlVerif.Props.{n}", f"TomlVerif/Props/{n}.lean")
+            if ctx.tier == "thorough":
+                leanchecker(ctx, f"TomlVerif.Props.{n}")
         else:
             ctx.oblige(f"property theorems TomlVerif.Props.{n}", False, "module missing")
 
